@@ -26,10 +26,48 @@ from .. import net as N
 from .common import Server, SERIALIZERS
 from ..seams import config, CL, SV, SU
 import Pyro5.api as api
-import Pyro5.errors as E
+import Pyro5.errors as E     # noqa: E402 (used by the exception table right below)
 
 
 _RUN = {"sched": None}
+
+
+def _user_exc(name):
+    """an application exception class of THIS module whose short name may collide with a builtin / Pyro5 exception"""
+    return type(name, (Exception,), {"__module__": __name__, "__qualname__": name})
+
+
+# user classes: round-trip through a registered dict-to-class converter for their qualified name (see _UserExcs)
+USER_EXCS = {"u_timeout": _user_exc("TimeoutError"), "u_naming": _user_exc("NamingError"), "u_key": _user_exc("KeyError"),
+             "u_conn": _user_exc("ConnectionClosedError"), "u_app": _user_exc("AppError")}
+# not raised by generated plans: StopIteration (see the note in BatchWorld.ASSUMPTIONS), Pyro5 CommunicationError / SecurityError
+# (handleRequest treats those specially for a single call: no reply / connection dropped - not a batch matter)
+FAIL_KINDS = {"timeout": TimeoutError, "connreset": ConnectionResetError, "conn": ConnectionError, "brokenpipe": BrokenPipeError,
+              "key": KeyError, "lookup": LookupError, "runtime": RuntimeError, "os": OSError, "interrupted": InterruptedError,
+              "arith": ArithmeticError, "naming": E.NamingError, "daemon": E.DaemonError, "pyro": E.PyroError,
+              "stopiter": StopIteration}
+FAIL_KINDS.update(USER_EXCS)
+GEN_FAIL_KINDS = sorted(k for k in FAIL_KINDS if k != "stopiter")
+
+
+def qualname(t):
+    return "%s.%s" % (t.__module__, t.__qualname__)
+
+
+class _UserExcs:
+    """dict-to-class converters for the user exception classes, registered for the duration of a run"""
+
+    @staticmethod
+    def install():
+        import Pyro5.serializers as SER
+        for cls in USER_EXCS.values():
+            SER.SerializerBase.register_dict_to_class(qualname(cls), lambda name, d, cls=cls: cls(*d.get("args", ())))
+
+    @staticmethod
+    def uninstall():
+        import Pyro5.serializers as SER
+        for cls in USER_EXCS.values():
+            SER.SerializerBase.unregister_dict_to_class(qualname(cls))
 
 
 class Acc:
@@ -91,6 +129,15 @@ class Acc:
             s.sleep(d)
         self.last = d
         return len(self.log)
+
+    @api.expose
+    def fail(self, kind, x):
+        """raises its own exception of the requested type: builtin, Pyro5, or an application class"""
+        self.log.append(["fail", kind, x])
+        cls = FAIL_KINDS[kind]
+        if kind == "os":
+            raise OSError(1 + x % 30, "boom %d" % x)
+        raise cls(x, kind)
 
     def hidden(self, x):
         self.log.append(["hidden", x])
@@ -172,8 +219,10 @@ def _val(rng, huge, depth=0):
 
 
 def _call(rng, huge, slow=False):
-    k = rng.choices(["add", "push", "put", "get", "div", "check", "hidden", "_secret", "nosuch", "addstr", "work"],
-                    [4, 3, 3, 1, 2, 2, 0.35, 0.35, 0.25, 0.2, 10 if slow else 0.3])[0]
+    k = rng.choices(["add", "push", "put", "get", "div", "check", "hidden", "_secret", "nosuch", "addstr", "work", "fail"],
+                    [4, 3, 3, 1, 2, 2, 0.35, 0.35, 0.25, 0.2, 10 if slow else 0.3, 2.2])[0]
+    if k == "fail":
+        return {"m": "fail", "a": [rng.choice(GEN_FAIL_KINDS), rng.randint(0, 99)], "k": {}}
     if k == "work":
         return {"m": "work", "a": [rng.choice([0.4, 0.5, 0.6, 0.7])], "k": {}}
     if k == "add":
@@ -265,7 +314,8 @@ class BatchWorld(World):
               "multiplex", "thread", "second_batch", "concurrent", "kwargs", "failure_at_position", "failure_at_submission",
               "background_interleaved", "compressed", "fragmented", "instance_target", "session_class", "percall_class",
               "peer_client", "reconnected", "session_state_compared", "class_instances_compared", "slow_batch",
-              "hangup_after_oneway", "abandoned_slow_oneway", "client_gave_up", "serializer_lines"]
+              "hangup_after_oneway", "abandoned_slow_oneway", "client_gave_up", "serializer_lines",
+              "exc_builtin", "exc_pyro", "exc_user", "exc_name_collision"]
     RULE = ("plan = (target: registered instances / session-mode classes / percall-mode classes; server type, serializer, "
             "compression, MSG_WAITALL, fragmentation, batch mode normal/one-way, 0-8 calls over add/push/put(kwargs)/get/div/check/"
             "hidden/_secret/nosuch with arguments from the lossless core, optional second batch of 0-4 calls on the same BatchProxy; "
@@ -313,7 +363,8 @@ class BatchWorld(World):
                 "lines": lines, "p_line": rng.choice([0.01, 0.03, 0.1]) if lines else 0.0,
                 "p_block": rng.choice([0.0, 0.2, 0.6, 1.0]),
                 # the client releases its proxy right after submitting a one-way batch (fire and forget)
-                "hangup": rng.random() < (0.75 if slow else 0.4), "impatient": None, "ser_lines": False}
+                "hangup": rng.random() < (0.75 if slow else 0.4), "impatient": None, "ser_lines": False,
+                "commtimeout": rng.choice([0, 0, 0, 90.0])}
         if slow and rng.random() < 0.5:
             plan["mode"] = "oneway"
         if servertype == "thread" and rng.random() < (0.6 if serializer == "msgpack" else 0.25):
@@ -361,6 +412,8 @@ class BatchWorld(World):
             yield dict(plan, start=0)
         if plan.get("hangup"):
             yield dict(plan, hangup=False)
+        if plan.get("commtimeout"):
+            yield dict(plan, commtimeout=0)
         if plan.get("ser_lines"):
             yield dict(plan, ser_lines=False)
         if plan["compression"]:
@@ -389,9 +442,11 @@ class BatchWorld(World):
     def scenario(self, ctx):
         registered = []
         _RUN["sched"] = ctx.sched
+        _UserExcs.install()
         try:
             self._scenario(ctx, registered)
         finally:
+            _UserExcs.uninstall()
             _RUN["sched"] = None
             for daemon, cls in registered:
                 try:
@@ -415,7 +470,10 @@ class BatchWorld(World):
         config.COMPRESSION = False
         config.MAX_RETRIES = 0
         SU.USE_MSG_WAITALL = bool(plan["waitall"])
-        srv = Server(ctx, plan["servertype"], pool=(1, 10))
+        # a server-side COMMTIMEOUT gives the accepted sockets a timeout: MSG_WAITALL no longer applies there and the server's
+        # receives come in pieces too (far longer than any run, so no connection is ever dropped for idling)
+        srv = Server(ctx, plan["servertype"], pool=(1, 10), commtimeout=float(plan.get("commtimeout") or 0.0))
+        # (accepted sockets take it from config when they are accepted; the proxies of this run wait as long as it takes)
         objA = objB = None
         if target == "instance":
             objA, objB = Acc(), Acc()
@@ -444,7 +502,7 @@ class BatchWorld(World):
                 last = tb.tb_frame.f_code.co_filename
                 tb = tb.tb_next
             # "own": raised by this file's own code (a harness bug if it escapes a call), not somewhere below the Pyro5 API
-            return {"cls": type(x).__name__, "args": list(getattr(x, "args", ())), "comm": isinstance(x, E.CommunicationError),
+            return {"cls": qualname(type(x)), "args": list(getattr(x, "args", ())), "comm": isinstance(x, E.CommunicationError),
                     "text": str(x)[:200], "own": last == __file__}
 
         def client(uris, body):
@@ -453,6 +511,7 @@ class BatchWorld(World):
             try:
                 for u in uris:
                     p = CL.Proxy(u)
+                    p._pyroTimeout = None
                     p._pyroBind()
                     proxies.append(p)
             except Exception as x:  # noqa
@@ -697,6 +756,7 @@ class BatchWorld(World):
                 for k, u in (("A", uriA), ("B", uriB)):
                     try:
                         with CL.Proxy(u) as p:
+                            p._pyroTimeout = None
                             remote[k] = ("ok", p.get())
                     except Exception as x:  # noqa
                         remote[k] = ("exc", describe(x))
@@ -767,12 +827,12 @@ class BatchWorld(World):
                 return None
             for i, c in enumerate(calls):
                 if c["m"] in NAME_FAILS:
-                    local = ("exc", "AttributeError", None)
+                    local = ("exc", "builtins.AttributeError", None)
                 else:
                     try:
                         local = ("ok", getattr(model, c["m"])(*copy.deepcopy(c["a"]), **copy.deepcopy(c["k"])))
                     except Exception as x:  # noqa
-                        local = ("exc", type(x).__name__, list(x.args))
+                        local = ("exc", qualname(type(x)), list(x.args))
                 if local[0] == "ok":
                     if i >= len(rb["results"]) or not same(rb["results"][i], local[1]):
                         ctx.disturbed = "%s: sequential reference diverged from local execution at call %d (%s)" % (u["tag"], i, c["m"])
@@ -810,6 +870,11 @@ class BatchWorld(World):
                 ctx.probe("second_batch")
             if name_fail:
                 ctx.probe(NAME_FAILS[fail["m"]])
+            if fail and fail["m"] == "fail":
+                kind = calls[k]["a"][0]
+                ctx.probe("exc_user" if kind in USER_EXCS else "exc_pyro" if kind in ("naming", "daemon", "pyro") else "exc_builtin")
+                if kind in ("timeout", "u_timeout", "u_naming", "u_key", "u_conn"):
+                    ctx.probe("exc_name_collision")
             if any(c["k"] for c in calls[:(k + 1) if fail else n]):
                 ctx.probe("kwargs")
             if sum(c["a"][0] for c in calls[:(k + 1) if fail else n] if c["m"] == "work") > 1.0:
@@ -834,7 +899,7 @@ class BatchWorld(World):
                 continue
             # ---- normal batch
             sub, itx, res = ra["submit_exc"], ra["iter_exc"], ra["results"]
-            if impatient and sub is not None and sub["cls"] == "TimeoutError" and sub["comm"]:
+            if impatient and sub is not None and sub["cls"] == "Pyro5.errors.TimeoutError" and sub["comm"]:
                 # the client gave up waiting: no results to compare, the effects are judged at quiescence
                 ctx.probe("client_gave_up")
                 continue
